@@ -97,6 +97,28 @@ func RouteSpecs(thorough bool) []*spec.Spec {
 		)}}
 		out = append(out, withCell(spec.One("route_mix", f), "route/unit=query_on_body_verbs", "extended", "valid", "route"))
 	}
+	// E: methods mounted at the service root ("/") with several verbs on the same path
+	{
+		f := &spec.File{Messages: out1(
+			spec.M("RootList", spec.F("q", "string").Q("q")),
+			spec.M("RootCreate", spec.F("name", "string"), spec.F("count", "int32")),
+			spec.M("RootPurge", spec.F("force", "bool").Q("force")),
+			spec.M("RootItem", spec.F("id", "string")),
+		), Services: []*spec.Service{
+			spec.Svc("RootService", "/api/v1/notes",
+				spec.RPC("ListNotes", "RootList", "Out", "GET", "/"),
+				spec.RPC("CreateNote", "RootCreate", "Out", "POST", "/"),
+				spec.RPC("PurgeNotes", "RootPurge", "Out", "DELETE", "/"),
+				spec.RPC("ReplaceNotes", "RootCreate", "Out", "PUT", "/"),
+				spec.RPC("GetNote", "RootItem", "Out", "GET", "/{id}"),
+			),
+			spec.Svc("SlashRootService", "/api/v2/notes/",
+				spec.RPC("ListNotes2", "RootList", "Out", "GET", "/"),
+				spec.RPC("CreateNote2", "RootCreate", "Out", "POST", "/"),
+			),
+		}}
+		out = append(out, withCell(spec.One("route_root", f), "route/unit=root_mounted_methods", "extended", "valid", "route"))
+	}
 	return out
 }
 
